@@ -12,6 +12,7 @@ import decimal
 import fractions
 import functools
 import hashlib
+import random as _random
 import types
 import weakref
 
@@ -176,6 +177,12 @@ def fingerprint(roots, extra=None, skip_attrs=()):
             out.append('wref(')
             w(o(), depth + 1)
             out.append(')')
+        elif t.__name__ == 'Struct' and hasattr(o, 'format'):
+            out.append('Struct(%s)' % (o.format,))
+        elif t.__name__ == 'HASH' and hasattr(o, 'hexdigest'):
+            out.append('HASH%d(%s)' % (n, o.hexdigest()))
+        elif isinstance(o, _random.Random):
+            out.append('Random%d(%s)' % (n, hashlib.sha1(repr(o.getstate()).encode()).hexdigest()[:16]))
         elif hasattr(o, '__verif_fp__'):
             out.append('%s%d(' % (t.__name__, n))
             w(o.__verif_fp__(), depth + 1)
